@@ -18,7 +18,14 @@ def classes_by_type():
 def observe_rt(p):
     """(enc bytes|None, total_length, decode result, re-encode bytes|None, notes)"""
     real = pm.realize(p)
-    obj = pm.to_impl(real)
+    import zlib
+    # every third value is built by filling its containers after construction (PDV items / variable items / user
+    # data appended one by one), as application code that assembles a PDU step by step does
+    pm.BUILD_BY_APPENDING[0] = zlib.crc32(repr(real).encode()) % 3 == 0
+    try:
+        obj = pm.to_impl(real)
+    finally:
+        pm.BUILD_BY_APPENDING[0] = False
     notes = {}
     try:
         tot = obj.total_length()
@@ -87,6 +94,12 @@ def gen_structured(tier, rng):
         for combo in itertools.product(kinds, repeat=n):
             out.append(('items', pm.g_assoc(rng, [pm.g_item(rng, k) for k in combo] +
                                             ([pm.g_item(rng, 'UserInfo')] if rng.random() < 0.5 else []))))
+    # user identity with a primary field in the upper half of its 16-bit length (a SAML assertion, a Kerberos ticket)
+    for n in (32767, 32768, 40000, 65000):
+        out.append(('userid-long', pm.g_assoc(rng, [pm.g_item(rng, 'AppCtx'),
+                                                   ('UserInfo', 0, [('MaxLen', 0, 4, 16384),
+                                                                    ('UserId', 0, 3 + n % 3, n % 2, b'k' * n, b''),
+                                                                    ('ImplVersion', 0, b'V1')])])))
     # AE titles of 0..16 characters, UIDs of 0..64 characters
     for n in range(0, 17):
         p = list(pm.g_assoc(rng, [pm.g_item(rng, 'AppCtx')]))
